@@ -8,7 +8,9 @@
                   directions  -1 (column only: Eps arc gains w), 0 (both: arc h[tp] gains w),
                   1 (transcript only: a new column {Eps: total, h[tp]: w} is inserted at the pointer);
      Normalize    normalize_cn: weights become the exact fractions cn[k][a] / ColSum(cn[k]) (kept implicit);
-     Enumerate    sorted_cn_paths: odometer over the columns (last rotor fastest), then sort by probability.
+     Enumerate    sorted_cn_paths: odometer over the columns (last rotor fastest), then sort by probability;
+     Read         get_pivot / best_cn_path / sorted_cn_paths (or anything done to a copy) on the network while it is still
+                  being built: a query - the network the caller holds is the same afterwards (no variable changes).
    Weights are integers (scores are small positive integers); a path probability is the integer numerator
    Prod_k cn[k][a_k] over the denominator Prod_k ColSum(cn[k]).
 
@@ -127,7 +129,11 @@ Enumerate == /\ phase = "norm" /\ Len(cn) <= PathCols /\ cn # <<>>
              /\ paths' = SortedPaths(cn)
              /\ UNCHANGED <<cn, adds, total, lastH, lastW>>
 
-Next == (\E h \in Strs, w \in Scores : Add(h, w)) \/ Normalize \/ Enumerate
+\* a query between two additions (get_pivot, best_cn_path, sorted_cn_paths, normalisation / addition on a COPY): read-only
+Read == /\ phase = "open" /\ adds > 0
+        /\ UNCHANGED vars
+
+Next == (\E h \in Strs, w \in Scores : Add(h, w)) \/ Normalize \/ Enumerate \/ Read
 Spec == Init /\ [][Next]_vars
 
 \* ======================================== properties (C14) ==========================================
